@@ -4,7 +4,7 @@ ENGINES = [
 ]
 NOTES = "All checks: ./run.sh <id> quick|thorough rebuilds the harness against /repo's working tree (replace directive) and rewrites evidence/<id>.json. known_findings.json is read-only at run time."
 NOT_YET = {}
-ENGINES.append({"name": "E2-regen", "path": "/verif/internal/regen, /verif/drivers", "serves_properties": ["C01", "C03", "C04", "C05", "C09", "C14", "C20"],
+ENGINES.append({"name": "E2-regen", "path": "/verif/internal/regen, /verif/drivers", "serves_properties": ["C01", "C03", "C04", "C05", "C09", "C14", "C15", "C20"],
      "kind_free_text": "regenerate-compile-drive pipeline: specs are generated in process by the generator of the tree under check into a scratch module, compiled with a driver and every case of the bounded space is executed on the regenerated code"})
 CHECKS["C12"] = dict(
     category="exploration", engine="E1-enum",
@@ -91,4 +91,11 @@ CHECKS["C01"] = dict(
     technique="bounded-exhaustive enumeration of parameter values per admitted (in, style, explode, shape, required/optional/default) cell and of body/response exchanges on a regenerated client+server pair, compared end to end",
     text="328 parameter operations (every admitted cell x 16 shapes incl. int32/int64/float/double/uuid/date/date-time/ipv4/uri/enum, arrays, flat object, map x required/optional/default) and a media spec (JSON with every member kind, form, multipart, text, octet-stream, optional body; 200 with headers, 201, 4XX pattern, default) are regenerated as client + server. 3.2e4 calls per configuration go Client -> in-process transport -> Server -> recording middleware -> recording handler -> scripted response -> Client: handler arguments == caller arguments (defaults filled for absent members), middleware.Request{Params, Body} == handler arguments, caller receives exactly the scripted variant/status/headers/body; a core value must be delivered, any value is delivered unchanged or refused with an error. thorough: second feature configuration (request/response validation, otel, example tests).",
     note="Trusted: the in-process transport (mimics http.Transport's unknown-length rule), reflect-based equality. Known findings: [] vs [\"\"] wire-form collision in joined array parameters and response headers. Bodies are a fixed member-kind matrix (not the whole schema grammar); webhooks and random specs are not driven.",
+)
+
+CHECKS["C15"] = dict(
+    category="fault_enumeration", engine="E2-regen",
+    technique="exhaustive single-fault (thorough: pairwise) injection at every position of valid requests against a regenerated server, judged by a stage model",
+    text="Six valid request shapes produced by the regenerated client (JSON body with parameters in all four locations and an apiKey requirement, form, optional JSON/text/empty body, multipart) are mutated by every single fault: 5 methods, 6 paths, 7 raw paths with malformed escapes, 28 parameter/credential faults, 7 content types, truncation and read error at every byte offset of the body, Content-Length mismatches, trailing data, 14 JSON token rewrites, 1e5-deep nesting, nil body, x handler outcomes {ok, declared default, error, not implemented}: 1108 requests; thorough adds every pair of faults at different positions and stages (3994). Oracle: no panic escapes ServeHTTP, exactly one response, status class of the earliest failing stage (404/405, 401, 400, 400/415), handler invoked iff no earlier stage failed, handler outcomes passed through.",
+    note="Trusted: the stage model in drivers/c15 and the fault classification (benign faults only check consistency). Requests are hand-built *http.Request values (bypassing net/http's validation), no sockets. Random requests and other specs are not driven.",
 )
